@@ -48,6 +48,9 @@ CHECKS = {
  "C16": ("exploration", "per-millisecond tiling audit of the tdpos / xpoa slot schedules over a parameter box + random configurations, acceptance matrix through the public CheckMinerMatch of real tdpos / xpoa / single / pow instances over stub ledgers (every validator, outsider, empty proposer, slot edges), PoW IsProofed / retarget against an independent Bitcoin-style model, compact encoding against an independent codec",
          "Exhaustive over the small configuration box (every ms of 3 terms), sampled beyond; ~13M evaluations per quick run.",
          "Trusted: the relational tiling auditor and the independent retarget / compact implementations in cmd/c16; stub ledger / contract objects.", "DESIGN.md §3 C16"),
+ "C09": ("exploration", "three-way agreement monitor: random $verif kernel-contract programs (get/put/del/scan/event/resource use/nested calls/contract transfers/failures) over growing prior states on a gas-charging chain: pre-execution (no trace) -> signed transaction -> VerifyTx -> DoTx -> state delta == write set and declared outputs -> block replay; tamper oracle over schema-walk mutants of read set / write set / requests / fee / token outputs, re-signed",
+         "Runtime oracle over ~1500 programs and ~700 tampered variants per quick run; held on what was explored; one nested-call rollback finding is recorded.",
+         "Trusted: Node.PreExec mirrors Chain.PreExec call by call; kernel contracts stand in for wasm/native/EVM contracts (same sandbox, bridge, verification and commit paths).", "DESIGN.md §3 C09"),
 }
 NOT_YET = "check not built yet in this session (work in progress; see DESIGN.md for the planned monitor)"
 ALL = ["C%02d" % i for i in range(1, 21)]
